@@ -777,6 +777,23 @@ pub fn single_edit_neighbours(doc: &Doc, markers: &[u8]) -> Vec<Doc> {
     out
 }
 
+/// Every position of the document set to every one of the 256 byte values (per-byte
+/// classification of the tokenizers: which bytes are blanks, digits, signs, line ends).
+pub fn byte_sweep(doc: &Doc) -> Vec<Doc> {
+    let b = &doc.bytes;
+    let mut out = Vec::with_capacity(b.len() * 255);
+    for k in 0..b.len() {
+        for m in 0..=255u8 {
+            if b[k] != m {
+                let mut v = b.clone();
+                v[k] = m;
+                out.push(Doc::new(format!("{}|set@{k}={m:#04x}", doc.name), v));
+            }
+        }
+    }
+    out
+}
+
 /// All concatenations of up to `max_len` tokens.
 pub fn token_sequences(tokens: &[&[u8]], max_len: usize) -> Vec<Doc> {
     let mut out = vec![Doc::new("seq:", Vec::new())];
